@@ -103,7 +103,7 @@ func tkDims() map[string][]tkDimVal {
 		return out
 	}
 	return map[string][]tkDimVal{
-		"sign": field(func(cs *tkCase, v string) { cs.sign = v }, "rs", "other", "none", "nonesig", "hs-n", "hs-pem", "tamper"),
+		"sign": field(func(cs *tkCase, v string) { cs.sign = v }, "rs", "other", "none", "nonesig", "hs-n", "hs-pem", "tamper", "tamper-seen"),
 		"iss":  field(func(cs *tkCase, v string) { cs.iss = v }, "right", "other", "slash", "absent"),
 		"exp":  field(func(cs *tkCase, v string) { cs.exp = v }, "far-future", "plus", "minus", "far-past", "absent"),
 		"nbf":  field(func(cs *tkCase, v string) { cs.nbf = v }, "", "past", "soon", "later"),
@@ -186,6 +186,7 @@ type tkRun struct {
 	// what the harness knows about the token it minted last
 	lastClaims map[string]interface{}
 	lastRaw    string
+	prevRS     string // the most recent genuinely RS256-signed token minted in this run
 	lastKey    *rsa.PrivateKey // nil when not RS256-signed / tampered
 	cur        tkCase
 	seq        int
@@ -298,6 +299,7 @@ func (t *tkRun) arm(p *fakeIDP, key *rsa.PrivateKey, cs tkCase) {
 		case "rs":
 			raw = signJWT("RS256", "k1", key, nil, claims)
 			t.lastKey = key
+			t.prevRS = raw
 		case "other":
 			raw = signJWT("RS256", "k1", other, nil, claims)
 			t.lastKey = other
@@ -312,6 +314,17 @@ func (t *tkRun) arm(p *fakeIDP, key *rsa.PrivateKey, cs tkCase) {
 		case "tamper":
 			// a validly signed token whose payload is then replaced (signature no longer covers it)
 			good := signJWT("RS256", "k1", key, nil, map[string]interface{}{"iss": claims["iss"], "sub": "nobody", "aud": "nobody", "exp": claims["exp"]})
+			forged, _ := json.Marshal(claims)
+			parts := strings.Split(good, ".")
+			raw = parts[0] + "." + b64u(forged) + "." + parts[2]
+		case "tamper-seen":
+			// header and signature of a genuine token this verifier has ALREADY been shown (earlier case), payload replaced:
+			// nothing remembered from the earlier verification may vouch for it
+			good := t.prevRS
+			if good == "" {
+				good = signJWT("RS256", "k1", key, nil, map[string]interface{}{"iss": claims["iss"], "sub": "nobody", "aud": claims["aud"], "exp": claims["exp"]})
+			}
+			claims["jti"] = fmt.Sprintf("forged-%d", time.Now().UnixNano()) // the payload certainly differs from the genuine token's
 			forged, _ := json.Marshal(claims)
 			parts := strings.Split(good, ".")
 			raw = parts[0] + "." + b64u(forged) + "." + parts[2]
